@@ -450,3 +450,107 @@ Example C12_ex_rms_x :
              (run (rms_step_x true (sagg 6) 6) rms_init (inputs h 5 [6; 6; 7])) =
   Some [([0], Some (An 5 6 None 7)); ([1], Some (An 11 6 None 7)); ([2], Some (An 17 6 None 7))].
 Proof. exact rms_x_ex. Qed.
+
+(* ==================== TRANSLATOR TIE (added): the step functions REGENERATED FROM THE SOURCE ====================
+   gen/StagesStepGen.v is rewritten on every run by translate/pycoro2coq.py from the current psiaudio/pipeline.py: one
+   pass of each coroutine from `(yield)` to `(yield)`, statement by statement (<stage>_gen_init = the locals set up before
+   `while True:`, <stage>_gen_step = the loop body, the chunk received in place of `(yield)`, target calls collected).
+   C12_source_<stage>_step: the generated step EQUALS the step function of Stages/Model.v that the theorems above are
+   about - for every state and every chunk (no invariant needed; `lift rep` only renames the state: the tuple of the
+   coroutine's locals <-> the record of the model).  downsample / decimate compute `.. % q`, which raises for q = 0 in the
+   source (py_mod) and not in the model: hypothesis q <> 0, needed (C12_source_*_step_refuted).
+   C12_source_<stage>_values_any / _contiguous_any: the theorems above restated over runs of the GENERATED functions. *)
+From PV Require Import gen.StagesStepGen Stages.ProofsTie.
+
+Theorem C12_source_discard_step : forall (A : Type) (discard_samples to_discard : Z) (chunk : blk A),
+  discard_gen_step discard_samples to_discard chunk = discard_step to_discard chunk.
+Proof. exact @discard_tie. Qed.
+Print Assumptions C12_source_discard_step.
+Theorem C12_source_blocked_step : forall (A : Type) (block_size : Z) (s : blocked_st A) (chunk : blk A),
+  blocked_gen_step block_size (b_data s, b_n s) chunk
+  = lift (fun s' => (b_data s', b_n s')) (blocked_step block_size s chunk).
+Proof. exact @blocked_tie. Qed.
+Print Assumptions C12_source_blocked_step.
+Theorem C12_source_downsample_step : forall (A : Type) (q : Z) (s : ds_st A) (chunk : blk A), q <> 0 ->
+  downsample_gen_step q (ds_rem s, ds_s0 s) chunk
+  = lift (fun s' => (ds_rem s', ds_s0 s')) (downsample_step true q s chunk).
+Proof. exact @downsample_tie. Qed.
+Print Assumptions C12_source_downsample_step.
+Theorem C12_source_downsample_step_refuted : exists (s : ds_st Z) (chunk : blk Z),
+  downsample_gen_step 0 (ds_rem s, ds_s0 s) chunk
+  <> lift (fun s' => (ds_rem s', ds_s0 s')) (downsample_step true 0 s chunk).
+Proof. exact downsample_tie_refuted. Qed.
+Print Assumptions C12_source_downsample_step_refuted.
+Theorem C12_source_derivative_step : forall (A : Type) (sub : A -> A -> A) (init : A) (s : option (blk A)) (chunk : blk A),
+  derivative_gen_step sub init s chunk = derivative_step sub init s chunk.
+Proof. exact @derivative_tie. Qed.
+Print Assumptions C12_source_derivative_step.
+Theorem C12_source_decimate_step : forall (F A : Type) (filt : F -> A -> F * A) (zf0 : F) (q : Z)
+    (s : option (dec_st F A)) (chunk : blk A), q <> 0 ->
+  decimate_gen_step filt zf0 q (option_map (fun st => (d_s0 st, d_zf st, d_rem st)) s) chunk
+  = lift (option_map (fun st => (d_s0 st, d_zf st, d_rem st))) (decimate_step_e true filt zf0 q s chunk).
+Proof. exact @decimate_tie. Qed.
+Print Assumptions C12_source_decimate_step.
+Theorem C12_source_decimate_step_refuted : exists (s : option (dec_st Z Z)) (chunk : blk Z),
+  decimate_gen_step cfilt 0 0 (option_map (fun st => (d_s0 st, d_zf st, d_rem st)) s) chunk
+  <> lift (option_map (fun st => (d_s0 st, d_zf st, d_rem st))) (decimate_step_e true cfilt 0 0 s chunk).
+Proof. exact decimate_tie_refuted. Qed.
+Print Assumptions C12_source_decimate_step_refuted.
+Example C12_source_ex_q : (3 : Z) <> 0. Proof. exact downsample_tie_ex. Qed.
+
+(* ---- the C12 theorems over the generated functions (every chunking, zero-length chunks included) ---- *)
+Theorem C12_source_discard_values_any : forall (A : Type) d h s (ds : list (list A)), 0 <= d ->
+  emits_values (run (discard_gen_step d) (@discard_gen_init A d) (mkstream h s ds)) (discarded d (concat ds)).
+Proof. exact @source_discard_values_any. Qed.
+Print Assumptions C12_source_discard_values_any.
+Theorem C12_source_discard_contiguous_any : forall (A : Type) d h s (ds : list (list A)), 0 <= d ->
+  emits_contiguous (run (discard_gen_step d) (@discard_gen_init A d) (mkstream h s ds)) h (s + d).
+Proof. exact @source_discard_contiguous_any. Qed.
+Print Assumptions C12_source_discard_contiguous_any.
+Theorem C12_source_blocked_values_any : forall (A : Type) bs h s (ds : list (list A)), 1 <= bs ->
+  exists st outs, run (blocked_gen_step bs) (blocked_gen_init bs) (mkstream h s ds) = Some (st, outs) /\
+    concat (map dat outs) = take_mult bs (concat ds) /\ Forall (fun o => zlen (dat o) = bs) outs.
+Proof. exact @source_blocked_values_any. Qed.
+Print Assumptions C12_source_blocked_values_any.
+Theorem C12_source_blocked_contiguous_any : forall (A : Type) bs h s (ds : list (list A)), 1 <= bs ->
+  emits_contiguous (run (blocked_gen_step bs) (blocked_gen_init bs) (mkstream h s ds)) h s.
+Proof. exact @source_blocked_contiguous_any. Qed.
+Print Assumptions C12_source_blocked_contiguous_any.
+Theorem C12_source_downsample_values_any : forall (A : Type) q h s (ds : list (list A)), 1 <= q ->
+  emits_values (run (downsample_gen_step q) (downsample_gen_init q) (mkstream h s ds)) (downsampled q (concat ds)).
+Proof. exact @source_downsample_values_any. Qed.
+Print Assumptions C12_source_downsample_values_any.
+Theorem C12_source_downsample_contiguous_any : forall (A : Type) q h s (ds : list (list A)), 1 <= q ->
+  emits_contiguous (run (downsample_gen_step q) (downsample_gen_init q) (mkstream h s ds)) (h_scale q h) (h_s0 h s).
+Proof. exact @source_downsample_contiguous_any. Qed.
+Print Assumptions C12_source_downsample_contiguous_any.
+Theorem C12_source_derivative_values_any : forall (A : Type) (sub : A -> A -> A) init h s (ds : list (list A)), h_an h <> None ->
+  emits_values (run (derivative_gen_step sub init) None (mkstream h s ds)) (derived sub init (concat ds)).
+Proof. exact @source_derivative_values_any. Qed.
+Print Assumptions C12_source_derivative_values_any.
+Theorem C12_source_derivative_contiguous_any : forall (A : Type) (sub : A -> A -> A) init h s (ds : list (list A)), h_an h <> None ->
+  emits_contiguous (run (derivative_gen_step sub init) None (mkstream h s ds)) h s.
+Proof. exact @source_derivative_contiguous_any. Qed.
+Print Assumptions C12_source_derivative_contiguous_any.
+Theorem C12_source_decimate_values_any : forall (A F : Type) (filt : F -> A -> F * A) zf0 q h s (ds : list (list A)), 1 <= q ->
+  emits_values (run (decimate_gen_step filt zf0 q) None (mkstream h s ds)) (decimated filt zf0 q (concat ds)).
+Proof. exact @source_decimate_values_any. Qed.
+Print Assumptions C12_source_decimate_values_any.
+Theorem C12_source_decimate_contiguous_any : forall (A F : Type) (filt : F -> A -> F * A) zf0 q h s (ds : list (list A)), 1 <= q ->
+  emits_contiguous (run (decimate_gen_step filt zf0 q) None (mkstream h s ds)) (h_scale q h) (h_s0 h s).
+Proof. exact @source_decimate_contiguous_any. Qed.
+Print Assumptions C12_source_decimate_contiguous_any.
+(* chunk invariance stated directly over the generated functions: two chunkings of one stream emit the same samples *)
+Theorem C12_source_downsample_chunk_invariant : forall (A : Type) q h s (ds1 ds2 : list (list A)), 1 <= q ->
+  concat ds1 = concat ds2 ->
+  exists st1 o1 st2 o2,
+    run (downsample_gen_step q) (downsample_gen_init q) (mkstream h s ds1) = Some (st1, o1) /\
+    run (downsample_gen_step q) (downsample_gen_init q) (mkstream h s ds2) = Some (st2, o2) /\
+    concat (map dat o1) = concat (map dat o2).
+Proof. exact @source_chunk_invariant_downsample. Qed.
+Print Assumptions C12_source_downsample_chunk_invariant.
+Example C12_source_ex :
+  outs_of (run (downsample_gen_step 2) (downsample_gen_init 2)
+               (mkstream (Hdr false (Some (1, None, 7))) 10 [[0; 1; 2]; []; [3]; [4; 5; 6]]))
+  = Some [Blk [0] false (Some (An 10 2 None 7)); Blk [2] false (Some (An 11 2 None 7)); Blk [4] false (Some (An 12 2 None 7))].
+Proof. exact source_ex. Qed.
